@@ -522,6 +522,79 @@ theorem appendSelf_rel (r : RArr) (a : AState) (h : Rel r a) :
       rw [hsz, hloop]
     · rw [ha2]; exact ⟨g3, rfl, by simp [AState.size], by simp; omega⟩
 
+theorem subCopyLoop_img (es : List Int) (cap i n : Nat) (h1 : i + n ≤ es.length) (h2 : es.length + n ≤ cap) :
+    ∀ (k t : Nat), t + k = n →
+    selfCopyLoop (img (es ++ (es.drop i).take t) cap) (es.length + t) (i + t) k = some (img (es ++ (es.drop i).take n) cap) := by
+  intro k
+  induction k with
+  | zero => intro t h; simp only [selfCopyLoop]; rw [show t = n by omega]
+  | succ k ih =>
+    intro t h
+    have ht : i + t < es.length := by omega
+    have hr : readCell (img (es ++ (es.drop i).take t) cap) (i + t) = some es[i + t] := by
+      rw [readCell_img _ _ (i + t) (by simp; omega)]
+      simp [List.getElem_append_left ht]
+    have hl : (es ++ (es.drop i).take t).length = es.length + t := by simp; omega
+    have hcst := construct_img (es ++ (es.drop i).take t) cap es[i + t] (by rw [hl]; omega)
+    rw [hl] at hcst
+    simp only [selfCopyLoop, hr, hcst]
+    have : es ++ (es.drop i).take t ++ [es[i + t]] = es ++ (es.drop i).take (t + 1) := by
+      rw [List.append_assoc]
+      congr 1
+      have hd : t < (es.drop i).length := by simp; omega
+      rw [List.take_succ_eq_append_getElem hd]
+      simp
+    rw [this]
+    exact ih (t + 1) (by omega)
+
+theorem appendSub_rel (r : RArr) (a : AState) (h : Rel r a) (i n : Nat) :
+    (∃ r' ra, appendSub r i n = some r' ∧ a.appendSub i n = some ra ∧ Rel r' ra.st) ∨
+    (appendSub r i n = none ∧ a.appendSub i n = none) := by
+  have hn := rel_n h
+  have hsz : a.size = a.elems.length := rfl
+  by_cases c : i + n ≤ a.size
+  · left
+    by_cases cn : n = 0
+    · subst cn
+      obtain ⟨r1, e1, h1⟩ := reserve_rel r a h (a.size + 0)
+      have good := (AState.appendAll_good a (rel_ok h) []).1
+      have hA : ∃ ra, a.appendSub i 0 = some ra ∧ ra.st = (a.reserve (a.size + 0)).1 := by
+        unfold AState.appendSub AState.appendAll
+        simp only [c, if_true, List.take_zero, List.length_nil, AState.pushAll]
+        exact ⟨_, rfl, rfl⟩
+      obtain ⟨ra, ha1, ha2⟩ := hA
+      have hr1 : r1.n = a.size := by
+        rw [rel_n h1, AState.size_eq, (AState.reserve_spec a (a.size + 0) (rel_ok h)).1]; rfl
+      refine ⟨r1, ra, ?_, ha1, by rw [ha2]; exact h1⟩
+      unfold appendSub
+      rw [hn]
+      simp only [c, if_true, e1]
+      cases hc : r1.cells with
+      | none => simp
+      | some cs =>
+        simp only [selfCopyLoop]
+        congr 1
+        cases r1; simp at hc hr1 ⊢; exact ⟨hc.symm, hr1.symm⟩
+    · obtain ⟨r1, cap1, e1, g2, g3, g4, g5, g6, g7⟩ := reserve_shape r a h (a.size + n) (by omega)
+      have hloop := subCopyLoop_img a.elems cap1 i n (by omega) (by omega) n 0 (by omega)
+      simp only [List.take_zero, List.append_nil, Nat.add_zero] at hloop
+      have hA : ∃ ra, a.appendSub i n = some ra ∧
+          ra.st = { cap := cap1, data := some (a.elems ++ (a.elems.drop i).take n) } := by
+        have hlen : ((a.elems.drop i).take n).length = n := by simp; omega
+        have hp := pushAll_some ((a.elems.drop i).take n) cap1 a.elems (by rw [hlen]; omega)
+        unfold AState.appendSub AState.appendAll
+        simp only [c, if_true, hlen, g7, hp]
+        exact ⟨_, rfl, rfl⟩
+      obtain ⟨ra, ha1, ha2⟩ := hA
+      refine ⟨{ r1 with cells := some (img (a.elems ++ (a.elems.drop i).take n) cap1), n := a.size + n }, ra, ?_, ha1, ?_⟩
+      · unfold appendSub
+        rw [hn]
+        simp only [c, if_true, e1, g2]
+        rw [hsz, hloop]
+      · rw [ha2]; exact ⟨g3, rfl, by simp [AState.size]; omega, by simp; omega⟩
+  · right
+    exact ⟨by simp [appendSub, hn, c], by simp [AState.appendSub, c]⟩
+
 theorem appendRef_rel (r : RArr) (a : AState) (h : Rel r a) (i : Nat) :
     (∃ r' ra, appendRef r i = some r' ∧ a.appendRef i = some ra ∧ Rel r' ra.st) ∨
     (appendRef r i = none ∧ a.appendRef i = none) := by
@@ -761,6 +834,8 @@ theorem rstep_rel (p : RPair) (s : State) (h : RelS p s) (op : Op) (ha : isArray
     by_cases hv : v < 2
     · left; exact ⟨p, _, by simp only [rstep, hv, if_true], by simp only [step, hv, if_true] <;> rfl, h⟩
     · right; simp [rstep, step, hv]
+  case aappendsub v i n =>
+    exact unary p s h v (fun r => appendSub r i n) (fun a => a.appendSub i n) (fun r a hr => appendSub_rel r a hr i n)
 
 theorem rrun_rel (ops : List Op) : ∀ (p : RPair) (s : State), RelS p s → (∀ op ∈ ops, isArrayOp op = true) →
     RelS (rrun p ops) (run s ops) := by
